@@ -50,7 +50,7 @@ def _load(ex: Execution) -> Any:
 
 
 # ------------------------------------------------------------------------------- merge
-def exec_merge(ex: Execution, sources: list[list[Any]], pair: bool) -> tuple[Any, list[Any]]:
+def exec_merge(ex: Execution, sources: list[list[Any]], pair: bool, raw: bool = False) -> tuple[Any, list[Any]]:
     """sources: list of item lists; an item 'ERR' makes the source raise at that position"""
     with EngineExec(ex, RunConfig(pair_release=pair)) as e:
         mod = _load(ex)
@@ -63,7 +63,9 @@ def exec_merge(ex: Execution, sources: list[list[Any]], pair: bool) -> tuple[Any
                     await gate(f"s{i}.{k}")
                     if it == "ERR":
                         raise KeyError(f"source {i} failed")
-                    yield (i, it)
+                    # (``raw``: the sources' own values are yielded - they are distinct across sources - so that a value such as None
+                    # is an ITEM of the merged stream, not part of a wrapper tuple)
+                    yield it if raw else (i, it)
                 await gate(f"s{i}.end")
 
             return gen()
@@ -82,6 +84,10 @@ def exec_merge(ex: Execution, sources: list[list[Any]], pair: bool) -> tuple[Any
         v: list[Any] = []
         has_err = any("ERR" in s for s in sources)
         w = {"sources": len(sources), "with_error": has_err}
+        if raw:
+            w["items_include_none"] = any(it is None for s_ in sources for it in s_)
+            owner = {repr(it): i for i, s_ in enumerate(sources) for it in s_}
+            out[:] = [(owner.get(repr(x), -1), x) for x in out]
         if not t.done():
             v.append(("merge_never_finishes", w, f"stuck={e.stuck}; out={out}"))
         else:
@@ -232,6 +238,10 @@ def programs(tier: str) -> list[Program]:
             ps.append(Program(name, {"sources": srcs, "pair": pair},
                               (lambda ex, srcs=srcs, pair=pair: exec_merge(ex, srcs, pair)),
                               max_dev=(None if sum(len(s) for s in srcs) <= 4 and not pair else (3 if q else 5))))
+    # the items themselves are the sources' values, one of them None (a legal item like any other)
+    for srcs in ([[10, None, 12], [20, 21]], [[None, 11]], [[10, None]], [[10], [None, 21], [30]]):
+        ps.append(Program(f"merge_raw({srcs})", {"sources": srcs, "raw": True}, (lambda ex, srcs=srcs: exec_merge(ex, srcs, False, raw=True)),
+                          max_dev=(None if sum(len(s) for s in srcs) <= 4 else (3 if q else 5))))
     for keys in ([3, 1, 2], [2, 1], [5, 4, 3, 1]) + (() if q else ([1, 2, 3, 0], [9, 8, 7, 6, 5])):
         ps.append(Program(f"debounce(keys={keys})", {"keys": keys},
                           (lambda ex, keys=keys: exec_debounce(ex, keys, 1.0, 2.5)),
